@@ -146,9 +146,12 @@ AdsOk == /\ apis \in {Apis, {OPS}, {IAM}, {LOC}, {OPS, LOC}}
          /\ transports \in {{"grpc"}, {"grpc", "rest"}}
          /\ layout \in {"single", "own_first"}
 \* replay grid of the thorough tier: every rule set with both transports, single transports with a third of them;
-\* the two-service layouts with both transports
-ThoroughOk == /\ transports = {"grpc", "rest"} \/ (layout = "single" /\ rules \in {AllRules(1), AllRules(2)} \cup OARows({0}))
+\* the two-service layouts with both transports; own IAM RPCs with every rule set when the declaring service comes first
+Light == {AllRules(1), AllRules(2)} \cup OARows({0})
+ThoroughOk == /\ transports = {"grpc", "rest"} \/ (layout = "single" /\ rules \in Light)
               /\ own => (IAM \in apis \/ apis = {})        \* own IAM RPCs matter where IAM mixins could be selected
+              /\ own => (layout = "own_first" \/ rules \in Light)
+QuickOk == layout = "single" \/ (transports = {"grpc", "rest"} /\ rules \in Light)
 \* the exhaustive rule space of the "full" scope is explored for the single-service layout
 FullOk == layout = "single" \/ rules \notin ([RPCs -> {0, 1}] \ ({AllRules(1)} \cup OARows({0, 1, 2})))
 Init == /\ apis \in SUBSET Apis /\ rules \in RuleSets /\ own \in BOOLEAN /\ legacy \in BOOLEAN
@@ -156,6 +159,7 @@ Init == /\ apis \in SUBSET Apis /\ rules \in RuleSets /\ own \in BOOLEAN /\ lega
         /\ layout \in (IF own THEN {"single", "own_first", "own_last"} ELSE {"single"})
         /\ transports \in TransportSets
         /\ (Scope = "thorough" => ThoroughOk)
+        /\ (Scope = "quick" => QuickOk)
         /\ (Scope = "full" => FullOk)
         /\ tmpl \in (IF Scope = "small" THEN {"default"} ELSE {"default", "ads"})
         /\ (tmpl = "ads" => AdsOk)
